@@ -89,6 +89,8 @@ partial def toOp : SX → Option Op
   | .list [.atom "mutate_mut", s] => (toComponent s).map fun c => .wrap .mutate (.wrap .byMutRef c)
   | .list [.atom "recombine", s] => (toComponent s).map (.wrap .recombine)
   | .list [.atom "recombine_ref", s] => (toComponent s).map fun c => .wrap .recombine (.wrap .byRef c)
+  | .list [.atom "erased", a] => do pure (.wrap .erased (← toOp a))
+  | .list [.atom "erased_arc", a] => do pure (.wrap .erased (← toOp a))
   | .list [.atom "extract"] => some .genomeExtractor
   | .list [.atom "scorer", gm, .atom c] => do pure (.genomeScorer (← toOp gm) (Probe.score (← c.toNat?)))
   | .list [.atom "wrapscorer", gm, .atom c] => do pure (Op.wrapScorer (← toOp gm) (Probe.score (← c.toNat?)))
